@@ -49,7 +49,30 @@ def _value(rng, counter):
     return "L%d" % counter[0]
 
 
+def _long_chain(rng, length):
+    """scale: a chain of `length` links, each to the previous one; reads and writes through the far end and the middle"""
+    ctr = [0]
+    ops = [{"op": "new"}]
+    for i in range(length):
+        kw = [[rng.choice(NAMES), _value(rng, ctr)]] if i in (0, length // 2, length - 1) and rng.random() < 0.7 else []
+        ops.append({"op": "link", "t": i, "kw": kw})
+    far, mid = length, length // 2
+    for _ in range(12):
+        i = rng.choice([far, far, mid, 1, 0, rng.randrange(length + 1)])
+        if rng.random() < 0.5:
+            ops.append({"op": "set", "i": i, "k": rng.choice(NAMES), "v": _value(rng, ctr)})
+        else:
+            ops.append({"op": "get", "i": i, "k": rng.choice(NAMES + ["missing"])})
+    for i in (0, 1, mid, far - 1, far):
+        for k in NAMES:
+            ops.append({"op": "get", "i": i, "k": k})
+    ops.append({"op": "dump"})
+    return {"fam": "symlink", "ops": ops, "userlink": rng.random() < 0.3}
+
+
 def generate(tier, rng):
+    for length in ([17, 45, 70] if tier == "quick" else [17, 33, 45, 70, 130, 260]):
+        yield _long_chain(rng, length)
     for _ in range(600 if tier == "quick" else 8000):
         ops = [{"op": "new"}]
         n = 1
